@@ -133,9 +133,10 @@ def read_items(text, **kw):
     from fparser.common.readfortran import FortranStringReader, Comment
     from fparser.common.sourceinfo import FortranFormat
     free = kw.pop("free", True)
+    strict = kw.pop("strict", False)
     r = FortranStringReader(text, **kw)
     if free is not None:
-        r.set_format(FortranFormat(free, False))       # the layout checks fix the form; detection is checked separately (C05)
+        r.set_format(FortranFormat(free, strict))       # the layout checks fix the form; detection is checked separately (C05)
     out = []
     while True:
         it = r.get_item()
@@ -355,6 +356,16 @@ def main(argv):
                         want = [expected_item(stmt) + ((2, 4),), ("z=0", None, None, (5, 5))]
                         if items != want:
                             fail("reader#fixed.same_statements", dict(source=src), dict(items=items, expected=want))
+                        # strict fixed form (Fortran 77 mode, set explicitly): the same statements; only 'C', 'c' and '*' lines
+                        # are comments there and a '!' does not start a comment
+                        if cstyle[0] in "Cc*" and "!" not in body and name is None:      # (no construct names in Fortran 77)
+                            try:
+                                items77 = [(i[1], i[2], i[3], i[4]) for i in read_items(src, ignore_comments=True, free=False, strict=True)]
+                            except BaseException as e:  # noqa
+                                fail("reader#fixed.strict_same_statements", dict(source=src), "%s: %s" % (type(e).__name__, e))
+                                continue
+                            if items77 != want:
+                                fail("reader#fixed.strict_same_statements", dict(source=src), dict(items=items77, expected=want))
         # a zero in column 6 marks an initial line like a blank does (the label is in columns 1-5 only)
         for stmt in STATEMENTS:
             label, name, toks = stmt
